@@ -42,6 +42,10 @@ def run_case(case):
         # the trial count of a preamble-free Nest is documented (outer count x inner count, each with its own
         # MinimumTrials); only the sequences of a Nest have no reference enumeration
         tgaps = [g for g in tgaps if g != "nest-reference"]
+    if "inner-mintrials-under-combinator" in tgaps and ast["block"]["kind"] in ("repeat", "merge"):
+        # which trials "one repetition" of a stretched inner block covers is not documented, its *count* is: Repeat is
+        # documented as Merge([block], constraints) in REPEAT mode, and a merged block keeps every operand's MinimumTrials
+        tgaps = [g for g in tgaps if g != "inner-mintrials-under-combinator"]
     if tgaps:
         return {"outcome": "skip", "reason": "doc-gap:" + tgaps[0]}
     import sweetpea as sp
